@@ -121,6 +121,12 @@ class Ctx:
             raise Infra('%s: TLC did not complete cleanly (rc=%d)\n%s' % (what, r['rc'], r['out'][-3000:]))
 
     # ------------------------------------------------------------------ verdicts
+    def diverge(self, what):
+        """a conformance-only mismatch between a model and the real code (no property clause failed)"""
+        self.divergences += 1
+        if len([n for n in self.notes if n.startswith('divergence')]) < 10:
+            self.notes.append('divergence: ' + what)
+
     def report(self, sig, what, replay_obj=None):
         """a property-monitor failure on real-code behaviour.  sig: abstract failing case (dict)."""
         for k in self._known:
